@@ -59,6 +59,22 @@ type badMarshal struct{ text string }
 
 func (b badMarshal) MarshalJSON() ([]byte, error) { return nil, errors.New(b.text) }
 
+// outMarshal is a json.Marshaler whose output is used as given: indented, invalid, truncated or empty
+// (encoding/json compacts the first and turns the others into errors).
+type outMarshal struct{ out string }
+
+func (o outMarshal) MarshalJSON() ([]byte, error) { return []byte(o.out), nil }
+
+// ptrMarshal implements json.Marshaler on the pointer receiver only.
+type ptrMarshal struct{ out string }
+
+func (o *ptrMarshal) MarshalJSON() ([]byte, error) { return []byte(o.out), nil }
+
+// textKey is an encoding.TextMarshaler (used as a value and as a map key).
+type textKey struct{ a, b int }
+
+func (t textKey) MarshalText() ([]byte, error) { return []byte(fmt.Sprintf("%d\n%d", t.a, t.b)), nil }
+
 type nanStruct struct{ F float64 }
 type sample struct {
 	A int      `json:"a"`
@@ -145,6 +161,32 @@ func fieldAlphabet() []fieldCase {
 	add("Reflect(NaN struct)", log.Reflect("r", nanStruct{math.NaN()}), anystr())
 	add("Reflect(error)", log.Reflect("r", errors.New("boom")), raw(errors.New("boom")))
 	add("Reflect(marshal error with hostile text)", log.Reflect("r", badMarshal{"ctl \x01\x7f \xff q\" nl\n \U000e0001"}), anystr())
+	// json.Marshaler / TextMarshaler values: whatever the marshaler returns, the line is one valid JSON line
+	// (encoding/json's own contract: output validated and compacted, invalid output = marshal error)
+	pretty := "{\n  \"a\": 1,\n  \"b\": [ 1,\t2 ],\r\n  \"c\": \"x y\"\n}"
+	for _, mk := range []struct {
+		name string
+		mk   func(v any) log.Field
+	}{{"Reflect", func(v any) log.Field { return log.Reflect("r", v) }}, {"Any", func(v any) log.Field { return log.Any("r", v) }}} {
+		add(mk.name+"(marshaler: indented output)", mk.mk(outMarshal{pretty}), raw(outMarshal{pretty}))
+		add(mk.name+"(marshaler: RawMessage with blanks)", mk.mk(json.RawMessage(" [ 1 , { \"k\" : null } ]\n")), raw(json.RawMessage(" [ 1 , { \"k\" : null } ]\n")))
+		add(mk.name+"(marshaler: invalid output)", mk.mk(outMarshal{`{"a":,"n":1}`}), anystr())
+		add(mk.name+"(marshaler: truncated output)", mk.mk(outMarshal{`{"a":1`}), anystr())
+		add(mk.name+"(marshaler: empty output)", mk.mk(outMarshal{""}), anystr())
+		add(mk.name+"(marshaler: two values)", mk.mk(outMarshal{"1 2"}), anystr())
+		add(mk.name+"(marshaler: raw line break in a string)", mk.mk(outMarshal{"\"a\nb\""}), anystr())
+		add(mk.name+"(marshaler on pointer receiver)", mk.mk(&ptrMarshal{pretty}), raw(&ptrMarshal{pretty}))
+		add(mk.name+"(struct holding marshalers)", mk.mk(struct {
+			P outMarshal
+			Q *ptrMarshal
+			R json.RawMessage
+		}{outMarshal{pretty}, &ptrMarshal{"[ ]"}, json.RawMessage("{ }")}), raw(struct {
+			P outMarshal
+			Q *ptrMarshal
+			R json.RawMessage
+		}{outMarshal{pretty}, &ptrMarshal{"[ ]"}, json.RawMessage("{ }")}))
+		add(mk.name+"(TextMarshaler value and map key)", mk.mk(map[textKey]textKey{{1, 2}: {3, 4}}), raw(map[textKey]textKey{{1, 2}: {3, 4}}))
+	}
 	add("String(12 KB, beyond the buffer-reuse cap)", log.String("big", strings.Repeat("x", 12000)), str(strings.Repeat("x", 12000)))
 	add("Array(custom)", log.Array("arr", arrEnc{func(e log.Encoder) {
 		e.AppendInt64(1)
